@@ -54,7 +54,8 @@ REQUIRED_PROBES = {
               "modulespec_from_string_variable", "cycle_reported",
               "shadowed_module_resolved", "torn_read", "names_checked",
               "shared_state_two_aliases", "nested_load_completed",
-              "scratch_env"],
+              "scratch_env", "module_members_checked",
+              "public_data_reassigned_then_required"],
 }
 REQUIRED_PROBES["thorough"] = REQUIRED_PROBES["quick"]
 
@@ -73,6 +74,12 @@ def module_ir(rng, i, mid, deps, opts):
           ["deffn", f"peek{i}", [], [["ret", ["v", "_st"]]]]]
     for c in "ab"[:rng.randrange(1, 3)]:
         ir.append(["def", f"c{i}_{c}", rng.randrange(1000)])
+    # a PUBLIC data definition that module code re-assigns: every require
+    # must expose its current value
+    ir.append(["def", f"cnt{i}", 0])
+    ir.append(["deffn", f"inc{i}", [],
+               [["set", f"cnt{i}", ["op", "+", ["v", f"cnt{i}"], 1]],
+                ["ret", ["v", f"cnt{i}"]]]])
     ir.append(["deffn", f"f{i}_x", ["p"],
                [["ret", ["op", "+", ["v", "p"], rng.randrange(50)]]]])
     ir.append(["deffn", f"usepriv{i}", [],
@@ -252,6 +259,8 @@ def gen_case(rng, tier, k):
             if not members:
                 return ["expr", ["mget", name, "nothing"]]
             mem = rng.choice(members)
+            if pick < 0.55 and f"inc{i}" in members:
+                mem = rng.choice([f"inc{i}", f"cnt{i}", f"cnt{i}"])
             v = obj.members[mem]
             if isinstance(v, lang.Fn):
                 args = [rng.randrange(9)] if v.params else []
@@ -331,6 +340,12 @@ def gen_case(rng, tier, k):
                 use = 5
             stmts = [["deffn", fname, [], rq + [["ret", use]]],
                      ["expr", ["call", fname, []]]]
+        elif r < 0.60 and objs_of(scope):
+            # what exactly does a module object expose?
+            name, obj = rng.choice(objs_of(scope))
+            case["ops"].append({"kind": "lsmod", "inst": inst, "env": env,
+                                "name": name})
+            continue
         elif r < 0.90:
             stmts = [gen_use(scope)]
             if rng.random() < 0.3:
